@@ -37,6 +37,14 @@ Theorem C17_reject :
 Proof. exact @first_eval_reject. Qed.
 Print Assumptions C17_reject.
 
+(* after pastify(): next / s_next (and every other sample operator) in a dense-time monitor stay rejected, although the
+   pastified formula no longer contains them *)
+Theorem C17_reject_pastified :
+  forall (VS : Val) (k : mkind) (p q : formula),
+    k = DenseOff \/ k = DenseOn -> no_sample_ops p = false -> supported_pastified k p q = false.
+Proof. exact @pastified_sample_ops_rejected. Qed.
+Print Assumptions C17_reject_pastified.
+
 Theorem C17_never_other_exception :
   forall (VS : Val) (k : mkind) (p : formula), first_eval k p <> Crash.
 Proof. exact @first_eval_never_crashes. Qed.
